@@ -28,6 +28,13 @@ def jobs2d(rng, tier):
             if n >= 0:
                 c = c01.content_for(m, n, rng)
                 L.append("qr %d %d %s" % (l, m if rng.random() < 0.6 else 0, J.hx(c)))
+            if m == 3 and n >= 4:
+                # byte mode with well-formed UTF-8 of every width filling the symbol exactly / one byte more or less
+                # (nothing but the byte count may decide the version: no room for an ECI header that is not written)
+                for lead in ("\u00e9", "\u20ac", "\U0001F600", "\u0416\u4e2d"):
+                    b = lead.encode("utf-8")
+                    t = b + b"a" * (n - len(b)) if rng.random() < 0.5 else b"a" * (n - len(b)) + b
+                    L.append("qr %d %d %s" % (l, rng.choice([0, 3]), J.hx(t)))
     # DataMatrix: every size boundary with different codeword/byte ratios
     # Auto mode (and explicit modes) at every short length x level: the mode Auto picks decides the version,
     # and a length that is no capacity boundary of the mode used can still be one for the mode Auto should not pick
@@ -36,6 +43,14 @@ def jobs2d(rng, tier):
             for m in (1, 2, 3):
                 c = c01.content_for(m, n, rng)
                 L.append("qr %d 0 %s" % (l, J.hx(c)))
+    for v in range(1, 5 if tier == "quick" else 12):
+        for l in range(4):
+            cap = c01.capacity(3, l, v)
+            for lead in ("\u20ac", "\U0001F600"):
+                b = lead.encode("utf-8")
+                for n in (cap - 1, cap, cap + 1):
+                    if n > len(b):
+                        L.append("qr %d %d %s" % (l, rng.choice([0, 3]), J.hx(b + b"a" * (n - len(b)))))
     for i, c in enumerate(DM_CAPS):
         # an interior point of every size's range as well as its two ends
         lo = DM_CAPS[i - 1] + 1 if i else 1
